@@ -36,6 +36,11 @@ type Shape struct {
 	// l2x.RegionLock inside the flip: K handles are already flipped on disk) | step11 (tlog.Add finalizeCommit)
 	FailAt string `json:"fail_at,omitempty"`
 	Note   string `json:"note,omitempty"`
+	// Cold: cold-start family (cold.go): the store is committed by one process, the paused writer and its
+	// readers run in another fresh process and the writer goes first. ColdGate: readers after "each" API
+	// op of the working phase (default) or only after the "last" one.
+	Cold     bool   `json:"cold,omitempty"`
+	ColdGate string `json:"cold_gate,omitempty"`
 	// AllCalls: corpus shapes whose every call is a pause point in the quick tier too
 	AllCalls bool `json:"all_calls,omitempty"`
 }
@@ -67,6 +72,9 @@ func (s *Shape) canon() string {
 		fmt.Fprintf(&sb, "%s:%d:%d,", o.K, o.Key, o.Val)
 	}
 	fmt.Fprintf(&sb, "|%s:%s", s.Ending, s.FailAt)
+	if s.Cold {
+		fmt.Fprintf(&sb, "|cold:%s", s.ColdGate)
+	}
 	return sb.String()
 }
 
